@@ -23,7 +23,7 @@ CHECKS = {
    "acceptance of the documented loose spellings (blanks, v prefix, hyphenless prerelease) is left open (MAY class), as the statement does", "6/C05"),
  "C06": C("fuzz-style robustness search: proptest input pools + exhaustive short strings through the whole public API under catch_unwind with overflow checks and debug assertions; CPU-time scaling measurement; libFuzzer+ASan target in the thorough tier",
    "Long inputs and operands with thousands of alternatives run in supervised child processes on a 256 KiB stack (a child killed by a signal - stack overflow, abort - is a violation). Pools of adversarial strings go through both parsers, every error accessor/diagnostic, every unary operation and all binary operations on all ordered pairs (incl. self) and on their results to depth 3, in a build with arithmetic-overflow checks and debug assertions; any panic is a violation. A watchdog reports a hang as inconclusive; CPU-time ratios t(8n)/t(n) of 16 adversarial input families decide the linear-time clause." + EXPL,
-   "the time clause is attacked only through fixed adversarial families (an input-specific super-linear path outside them would be missed); binary operations are O(|A||B|) by nature and operands are capped at 64 alternatives", "6/C06"),
+   "the time clause is attacked through 30 fixed adversarial families plus generated ones (600 / 12 000 random units of 1..4 tokens, optionally indexed, repeated n and 8n times); a super-linear path that needs a longer or more structured unit would be missed; binary operations are O(|A||B|) by nature and operands are capped at 64 alternatives", "6/C06"),
  "C07": C("property-based testing with a pointwise set-semantics oracle on interval models read from Display; exact emptiness computation for None; libFuzzer target algebra_c07_c15 (bytes -> expression trees over one version pool, same relation and oracle inside the target) in the thorough tier",
    "Pairs of Range values (leaves over an adjacent-version pool, or results of earlier operations) are intersected; membership in bounds, satisfies() for releases and the two prerelease implications are compared at ~40 probes per bound with the boolean combination of the operands' own answers; None requires an exactly empty overlap; commutativity and idempotence are checked pointwise." + EXPL,
    "bounds membership of a Range value is read from its canonical Display (a 30-line tokenizer; unreadable output is exit 2)", "6/C07"),
